@@ -188,6 +188,42 @@ pub proof fn lemma_read_extras_tail(pre: Seq<Seq<char>>, build: Seq<Seq<char>>, 
 pub open spec fn full_pspec(v: Version) -> PSpec {
     PSpec { major: Some(v.major as nat), minor: Some(v.minor as nat), patch: Some(v.patch as nat), pre: classify_all(texts(v.pre_release@)), build: classify_all(texts(v.build@)) }
 }
+// the three components `M.m.p` followed by something that is not a digit
+pub proof fn lemma_components_read(ma: Seq<char>, mi: Seq<char>, pa: Seq<char>, ex: Seq<char>)
+    requires wf_num(ma), wf_num(mi), wf_num(pa), stops_digits(ex),
+    ensures ({
+        let s = ma + (ch1('.') + (mi + (ch1('.') + (pa + ex))));
+        let t1 = ch1('.') + (mi + (ch1('.') + (pa + ex)));
+        let t3 = ch1('.') + (pa + ex);
+        &&& skip_ws(skip_lv(s)) == s
+        &&& g_component(s) == Some((Some(dec_val(ma)), t1))
+        &&& g_dot_component(t1) == (Some(Some(dec_val(mi))), t3)
+        &&& g_dot_component(t3) == (Some(Some(dec_val(pa))), ex)
+    }),
+{
+    let t4 = pa + ex;
+    let t3 = ch1('.') + t4;
+    let t2 = mi + t3;
+    let t1 = ch1('.') + t2;
+    let s = ma + t1;
+    assert(s[0] == ma[0]);
+    assert(dg_char(ma[0]));
+    assert(skip_lv(s) == s);
+    lemma_span_unique(s, |c: char| ws_char(c), 0);
+    assert(skip_ws(s) =~= s);
+    assert(g_xr(s) is None);
+    assert(stops_digits(t1)) by { assert(t1[0] == '.'); }
+    lemma_read_number(ma, t1);
+    lemma_read_char('.', t2);
+    assert(t2[0] == mi[0]); assert(dg_char(mi[0]));
+    assert(g_xr(t2) is None);
+    assert(stops_digits(t3)) by { assert(t3[0] == '.'); }
+    lemma_read_number(mi, t3);
+    lemma_read_char('.', t4);
+    assert(t4[0] == pa[0]); assert(dg_char(pa[0]));
+    assert(g_xr(t4) is None);
+    lemma_read_number(pa, ex);
+}
 pub proof fn lemma_partial_reads_printed_version(v: Version, tail: Seq<char>)
     requires wf_version(v), stops_version(tail),
     ensures g_partial(ver_text(v) + tail) == Some((full_pspec(v), tail)),
@@ -201,38 +237,10 @@ pub proof fn lemma_partial_reads_printed_version(v: Version, tail: Seq<char>)
     let ex = pre_text(pre) + (build_text(build) + tail);
     let s = ver_text(v) + tail;
     assert(s =~= ma + (ch1('.') + (mi + (ch1('.') + (pa + ex)))));
-    let t1 = ch1('.') + (mi + (ch1('.') + (pa + ex)));
-    let t3 = ch1('.') + (pa + ex);
-    // no `v`, no blanks: the text starts with a digit
-    assert(s[0] == ma[0]);
-    assert(dg_char(ma[0]));
-    assert(skip_lv(s) == s);
-    lemma_span_unique(s, |c: char| ws_char(c), 0);
-    assert(skip_ws(s) =~= s);
-    assert(g_xr(s) is None);
-    assert(stops_digits(t1)) by { assert(t1[0] == '.'); }
-    lemma_read_number(ma, t1);
-    assert(g_component(s) == Some((Some(dec_val(ma)), t1)));
-    // .minor
-    let t2 = mi + t3;
-    assert(t1 =~= ch1('.') + t2);
-    lemma_read_char('.', t2);
-    assert(t2[0] == mi[0]); assert(dg_char(mi[0]));
-    assert(g_xr(t2) is None);
-    assert(stops_digits(t3)) by { assert(t3[0] == '.'); }
-    lemma_read_number(mi, t3);
-    assert(g_dot_component(t1) == (Some(Some(dec_val(mi))), t3));
-    // .patch
-    let t4 = pa + ex;
-    assert(t3 =~= ch1('.') + t4);
-    lemma_read_char('.', t4);
-    assert(t4[0] == pa[0]); assert(dg_char(pa[0]));
-    assert(g_xr(t4) is None);
     assert(stops_digits(ex)) by {
         if pre.len() > 0 { assert(ex[0] == '-'); } else if build.len() > 0 { assert(ex =~= build_text(build) + tail); assert(ex[0] == '+'); } else { assert(ex =~= tail); }
     }
-    lemma_read_number(pa, ex);
-    assert(g_dot_component(t3) == (Some(Some(dec_val(pa))), ex));
+    lemma_components_read(ma, mi, pa, ex);
     lemma_read_extras_tail(pre, build, tail);
     let raw = PSpec { major: Some(dec_val(ma)), minor: Some(dec_val(mi)), patch: Some(dec_val(pa)), pre: classify_all(pre), build: classify_all(build) };
     assert(norm(raw) == raw);
